@@ -180,6 +180,21 @@ CHECKS['C10'] = dict(
     note=COMMON_NOTE + 'numpy/dask transpose/reshape semantics assumed.',
     ref='§5 C10')
 
+CHECKS['C07'] = dict(
+    technique='Lean 4 theorems over the slicing model (row/column selection, eager fix-up, refusals) + differential correspondence with a numpy orthogonal-indexing oracle',
+    text=('Theorems (Usid/Properties/C07.lean): the rows/columns of the 2-D path are exactly those whose indices fall in the '
+          'selection of every dimension, each once, in increasing order; the eager post-processing (squeeze, '
+          'atleast_2d, orientation fix-up) is the identity on every non-empty result - single row, single column, '
+          'single element and square - hence eager = lazy; negative, out-of-range, empty, wrongly typed and '
+          'unknown-label requests are refused with the stated error; two list selectors on the N-D path are refused '
+          'with NotImplementedError. PARTIAL: "N-D result = ordinary indexing of the N-D form" is definitional in the '
+          'model (per-axis selection over the C-order view) and its link to main[r,c] goes through the C01 coordinate '
+          'map (in progress). Correspondence: all four modes (ndim_form x lazy), file-order and sorted wrappers, slices '
+          'with negative bounds/steps, lists/tuples/arrays, forced square and single-row results, malformed stream; '
+          'oracle = np.take / np.ix_ on arrays read back independently.'),
+    note=COMMON_NOTE + 'dask fancy-indexing semantics assumed by the N-D model; tuples are accepted by the 2-D path only.',
+    ref='§5 C07')
+
 REASON_PENDING = 'check not built yet in this round (planned: Lean model + theorems + correspondence, see DESIGN.md §5)'
 
 
